@@ -268,6 +268,11 @@ async fn renew_certificate(
 		"AttemptEnd",
 		serde_json::json!({"is_success": is_success}),
 	);
+	if !is_success {
+		// Do not try again at once: a failing certificate would otherwise be
+		// requested in a tight loop.
+		sleep(Duration::from_secs(crate::DEFAULT_RENEW_FAIL_WAIT_SEC)).await;
+	}
 	(certificate, account_s.clone(), endpoint_s.clone())
 }
 
